@@ -141,7 +141,124 @@ def single_op_programs(rng):
     return progs
 
 
+# --------------------------------------------------------------------------------------
+# correspondence: series-level pullback kernels, driven through the tracer, vs the Lean model
+import math
+import scipy.special as sp
+PB1 = {
+    # name: (traced callable, domain, model fn, leaves(x0), params, n)
+    'exp': (lambda f: algopy.exp(f), 'any', 'exp', lambda x0: [], [], 0),
+    'log': (lambda f: algopy.log(f), 'pos', 'log', lambda x0: [], [], 0),
+    'sqrt': (lambda f: algopy.sqrt(f), 'pos', 'sqrt', lambda x0: [], [], 0),
+    'square': (lambda f: algopy.square(f), 'any', 'square', lambda x0: [], [], 0),
+    'reciprocal': (lambda f: algopy.reciprocal(f), 'pos', 'reciprocal', lambda x0: [], [], 0),
+    'negative': (lambda f: algopy.negative(f), 'any', 'negative', lambda x0: [], [], 0),
+    'neg': (lambda f: -f, 'any', 'neg', lambda x0: [], [], 0),
+    'sign': (lambda f: algopy.sign(f), 'pos', 'sign', lambda x0: [], [], 0),
+    'absolute': (lambda f: algopy.absolute(f), 'nz', 'absolute', lambda x0: [np.sign(x0)], [], 0),
+    'pow3': (lambda f: f ** 3, 'any', 'pownat', lambda x0: [], [], 3),
+    'pow2': (lambda f: f ** 2, 'any', 'pownat', lambda x0: [], [], 2),
+    'pow1': (lambda f: f ** 1, 'any', 'pownat', lambda x0: [], [], 1),
+    'pow0': (lambda f: f ** 0, 'any', 'pownat', lambda x0: [], [], 0),
+    'powm2': (lambda f: f ** (-2), 'pos', 'powreal', lambda x0: [], [-2.0], 0),
+    'pow1.5': (lambda f: f ** 1.5, 'pos', 'powreal', lambda x0: [], [1.5], 0),
+    'sin': (lambda f: algopy.sin(f), 'any', 'sin', lambda x0: [np.sin(x0), np.cos(x0)], [], 0),
+    'cos': (lambda f: algopy.cos(f), 'any', 'cos', lambda x0: [np.sin(x0), np.cos(x0)], [], 0),
+    'tan': (lambda f: algopy.tan(f), 'tan', 'tan', lambda x0: [np.sin(x0), np.cos(x0)], [], 0),
+    'expm1': (lambda f: algopy.expm1(f), 'any', 'expm1', lambda x0: [np.exp(x0)], [], 0),
+    'log1p': (lambda f: algopy.log1p(f), 'pos', 'log1p', lambda x0: [], [], 0),
+    'logit': (lambda f: algopy.special.logit(f), '01', 'logit', lambda x0: [], [], 0),
+    'expit': (lambda f: algopy.special.expit(f), 'any', 'expit', lambda x0: [np.exp(x0)], [], 0),
+    'erf': (lambda f: algopy.special.erf(f), 'any', 'erf', lambda x0: [np.exp(-x0 * x0)], [2. / math.sqrt(math.pi)], 0),
+    'erfi': (lambda f: algopy.special.erfi(f), 'small', 'erfi', lambda x0: [np.exp(x0 * x0)], [2. / math.sqrt(math.pi)], 0),
+    'dawsn': (lambda f: algopy.special.dawsn(f), 'any', 'dawsn', lambda x0: [sp.dawsn(x0)], [], 0),
+}
+PB2 = {'add': lambda a, b: a + b, 'sub': lambda a, b: a - b, 'mul': lambda a, b: a * b, 'div': lambda a, b: a / b}
+
+
+def make_pb_case(rng, tier):
+    from props import c01
+    D = rng.randint(1, 4 if tier == 'quick' else 6)
+    P = rng.choice([1, 2])
+    shape = rand_shape(rng, 2, 3)
+    if rng.random() < 0.75:
+        name = rng.choice(sorted(PB1))
+        x = rand_coeffs(rng, (D, P) + shape, -1, 1)
+        x[0] = c01.gen_x0(rng, PB1[name][1], (P,) + shape, False)
+        return {'pb': 1, 'fn': name, 'D': D, 'P': P, 'x': x, 'ybar': rand_coeffs(rng, (D, P) + shape, -2, 2)}
+    name = rng.choice(sorted(PB2))
+    x = rand_coeffs(rng, (D, P) + shape, -2, 2)
+    y = rand_coeffs(rng, (D, P) + shape, -2, 2)
+    y[0] = c01.gen_x0(rng, 'nz', (P,) + shape, False)
+    return {'pb': 2, 'fn': name, 'D': D, 'P': P, 'x': x, 'y': y, 'ybar': rand_coeffs(rng, (D, P) + shape, -2, 2)}
+
+
+def pb_mismatch(ctx, case):
+    x = np.array(case['x'])
+    ybar = np.array(case['ybar'])
+    cg = algopy.CGraph()
+    fx = algopy.Function(UTPM(x.copy()))
+    if case['pb'] == 1:
+        call, dom, mfn, leaves, params, n = PB1[case['fn']]
+        fy = call(fx)
+        cg.trace_off()
+        cg.independentFunctionList = [fx]
+        cg.dependentFunctionList = [fy]
+        cg.pullback([UTPM(ybar.copy())])
+        got = np.array(fx.xbar.data)
+        lv = [np.asarray(l, dtype=float).reshape(x[0].shape) for l in leaves(x[0])]
+        m = ctx.model.arrs({'op': 'pb1', 'fn': mfn, 'ybar': enc_arr(ybar), 'x': enc_arr(x), 'y': enc_arr(np.array(fy.x.data)),
+                            'leaves': [enc_arr(l) for l in lv], 'params': [enc_num(p) for p in params], 'n': n})
+        if isinstance(m, str):
+            return 'model-error: ' + m
+        if not close(got, m[0]):
+            return 'pullback-%s: xbar from the reverse sweep differs from the modelled pullback kernel, max diff %s' % (case['fn'], maxdiff(got, m[0]))
+        return None
+    y = np.array(case['y'])
+    fy_in = algopy.Function(UTPM(y.copy()))
+    fz = PB2[case['fn']](fx, fy_in)
+    cg.trace_off()
+    cg.independentFunctionList = [fx, fy_in]
+    cg.dependentFunctionList = [fz]
+    cg.pullback([UTPM(ybar.copy())])
+    m = ctx.model.arrs({'op': 'pb2', 'fn': case['fn'], 'zbar': enc_arr(ybar), 'x': enc_arr(x), 'y': enc_arr(y), 'z': enc_arr(np.array(fz.x.data))})
+    if isinstance(m, str):
+        return 'model-error: ' + m
+    if not (close(np.array(fx.xbar.data), m[0]) and close(np.array(fy_in.xbar.data), m[1])):
+        return 'pullback-%s: adjoints of the binary operator differ from the modelled pullback' % case['fn']
+    return None
+
+
+def search(ctx, case, what):
+    """a model/implementation disagreement on a pullback kernel: does the adjoint identity fail on the implementation?"""
+    import random
+    rng = random.Random(12345)
+    fn = case.get('fn')
+    if case.get('pb') == 1:
+        ew = {'pow3': 'pow3', 'pow2': 'pow2', 'powm2': 'powm2', 'pow1.5': 'pow1.5'}.get(fn, fn)
+        if ew not in programs.EW:
+            return None
+        prog = {'inputs': [[3]], 'steps': [{'op': 'ew', 'fn': 'square', 'a': 0}, {'op': 'binc', 'fn': 'add', 'a': 1, 'c': 0.75, 'side': 'r'},
+                                           {'op': 'ew', 'fn': ew, 'a': 2}], 'out': 3, 'out_shape': [3]}
+        if ew in ('logit', 'arcsin', 'tan'):
+            prog['steps'] = [{'op': 'ew', 'fn': 'expit', 'a': 0}, {'op': 'ew', 'fn': ew, 'a': 1}]
+            prog['out'] = 2
+    elif case.get('pb') == 2:
+        prog = {'inputs': [[3], [3]], 'steps': [{'op': 'ew', 'fn': 'square', 'a': 1}, {'op': 'binc', 'fn': 'add', 'a': 2, 'c': 0.75, 'side': 'r'},
+                                                {'op': 'bin', 'fn': fn, 'a': 0, 'b': 3}], 'out': 4, 'out_shape': [3]}
+    else:
+        return None
+    for _ in range(40):
+        c = make_case(rng, 'thorough', prog=prog)
+        f = adjoint_fails(c)
+        if f:
+            return (c, f)
+    return None
+
+
 def replay_case(ctx, case):
+    if 'pb' in case:
+        return pb_mismatch(ctx, case)
     return adjoint_fails(case)
 
 
@@ -170,3 +287,16 @@ def run(ctx):
             do(make_case(rng, ctx.tier, prog=p), 'single-op')
     for i in range(250 if ctx.tier == 'quick' else 4000):
         do(make_case(rng, ctx.tier), 'generated')
+    # correspondence of the modelled pullback kernels (functional: the proved local adjoint is about these)
+    for i in range(200 if ctx.tier == 'quick' else 3000):
+        case = make_pb_case(rng, ctx.tier)
+        ctx.evaluations += 1
+        ctx.count('pbkernel=' + case['fn'])
+        try:
+            f = pb_mismatch(ctx, case)
+        except Exception as ex:
+            f = 'exception-pb-%s: %s' % (case['fn'], str(ex).strip().splitlines()[-1][:100])
+        if f:
+            # a disagreement with the model is decided by the adjoint identity on the implementation
+            prog = None
+            ctx.report(case, 'disagreement', f)
